@@ -161,7 +161,7 @@ impl World {
     let params = Params {
       network,
       jubilee_height: jubilee,
-      first_inscription_height: first_inscription,
+      first_inscription_height: config.first_inscription_height.unwrap_or(first_inscription),
       first_rune_height: first_rune,
     };
     let mut world = Self {
@@ -335,6 +335,8 @@ impl World {
           // the coinbase of the block being built does not exist yet; earlier
           // coinbases are spendable (maturity is not modelled, ord has no such rule)
           && !(u.coinbase && u.height == height)
+          // the genesis coinbase is unspendable
+          && u.height != 0
       })
       .collect();
     if avail.is_empty() {
